@@ -55,8 +55,8 @@ type fCase struct {
 	Aux   string `json:"aux,omitempty"` // entry-point specific path
 	Fault string `json:"fault"`
 	Pigz  bool   `json:"pigz,omitempty"`
-	K     int    `json:"k"`              // -1: enumerate every fault index; otherwise only this one
-	Sub   string `json:"sub,omitempty"`  // with K>=0 for rd-*/gz-*: the error kind is in Fault; for producer: the sub-case
+	K     int    `json:"k"`             // -1: enumerate every fault index; otherwise only this one
+	Sub   string `json:"sub,omitempty"` // with K>=0 for rd-*/gz-*: the error kind is in Fault; for producer: the sub-case
 	Salt  uint64 `json:"salt"`
 	Quick bool   `json:"quick,omitempty"`
 }
@@ -207,7 +207,7 @@ func fBuildTar(ents []fEnt, extraX bool) ([]byte, error) {
 // fRec is one raw record of a tar stream (a header block and its data).
 type fRec struct {
 	Start, BodyStart, BodyEnd, Next int
-	Meta                           bool
+	Meta                            bool
 }
 
 // fLayout walks the raw blocks of a well-formed stream.
